@@ -33,10 +33,12 @@ def step_sig(kind: str, holder: str, hist: List[dict], k: int) -> Dict[str, Any]
                 after=sorted(set(prev)))
 
 
-def replay_history(ctx: Ctx, case: Dict[str, Any], props: Tuple[str, ...] = ("C09",)) -> None:
+def replay_history(ctx: Ctx, case: Dict[str, Any], props: Tuple[str, ...] = ("C09",), members: str = "ddf") -> None:
     kind, holder, hist = case["kind"], case["holder"], case["hist"]
+    if kind == "SEQ" and members == "ddf":  # the same history on a composite of predicted LINEAR members
+        replay_history(ctx, case, props, members="linear")
     try:
-        w = World(kind, holder, case.get("initver", 0))
+        w = World(kind, holder, case.get("initver", 0), members=members)
     except Exception as ex:
         raise MachineryError(f"cannot construct {kind}/{holder}: {ex}")
     # conditioning arguments are given positionally or by keyword
@@ -54,6 +56,10 @@ def replay_history(ctx: Ctx, case: Dict[str, Any], props: Tuple[str, ...] = ("C0
         if msg:
             ctx.violation(dict(**step_sig(kind, holder, hist, k), what="grid"), f"{kind}/{holder}: {msg} after {[h['a'] for h in hist[:k]]}", case)
             return
+        if st["obs"] and members == "linear" and st["a"] == "disp":
+            # linear members keep no displacement buffer: disp() reads the members' prediction buffer p, which (like any buffer) is refreshed by
+            # update() / __call__ only; the specification's Disp rule ("no buffered displacement => evaluate now") is about field members. Not judged.
+            continue
         if st["obs"]:
             if obs not in st["obs"]:
                 ctx.violation(dict(**step_sig(kind, holder, hist, k), what="stale" if obs != GARBAGE else "garbage"),
